@@ -254,7 +254,13 @@ type parentCtl struct {
 	grace     time.Duration
 }
 
+// runConfirmed: the parent has seen a confirmed hang in this run.
+var runConfirmed atomic.Bool
+
+func hangConfirmedInRun() bool { return runConfirmed.Load() }
+
 func (pc *parentCtl) confirm() {
+	runConfirmed.Store(true)
 	if !pc.env.Confirmed {
 		pc.env.Confirmed = true
 		pc.firstHang = time.Now()
